@@ -35,7 +35,8 @@ def fixture():
                       "data/var/tokens.jsonl": json.dumps({"token": "SENT-DATA-TOK", "group": "h", "permissions": ["present"], "expires": "2099-01-01T00:00:00Z"}) + "\n",
                       "static/index.html": "static index", "static/galene.html": "static galene", "static/third-party/x.js": "js",
                       "recordings/g/r1.webm": "REC-G-1", "recordings/g/r2.webm": "REC-G-2", "recordings/h/r1.webm": "SENT-REC-H", "recordings/secret.txt": "SENT-REC-TOP",
-                      "recordings/sub/x/r1.webm": "REC-SUBX"},
+                      "recordings/sub/x/r1.webm": "REC-SUBX", "recordings/g/inner/r1.webm": "REC-G-INNER", "recordings/g/inner/deep/r2.webm": "REC-G-INNER-DEEP",
+                      "groups/g/inner.json": grp(), "groups/g/inner/deep.json": grp()},
             "sentinels": SENT}
 
 
@@ -71,7 +72,8 @@ def server_behaviours():
             req(st, "DELETE", t.replace("@", e), "root", "SENT-ROOT-PW", "groups", {"If-Match": "*"})
         for t in ("/galene-api/v0/.groups/@/outside/secret/.users/rec/.password", "/galene-api/v0/.groups/@/outside/secret/.keys", "/galene-api/v0/.groups/g/.users/@/x"):
             req(st, "PUT", t.replace("@", e), "root", "SENT-ROOT-PW", "groups", {"Content-Type": "application/json"}, '"pw"')
-        for fn in (e + "/h/r1.webm", e + "/secret.txt", e, e + "/" + e + "/outside/secret.txt", "../h/r1.webm", "..%2fh%2fr1.webm", "..\\h\\r1.webm", "/h/r1.webm"):
+        for fn in (e + "/h/r1.webm", e + "/secret.txt", e, e + "/" + e + "/outside/secret.txt", "../h/r1.webm", "..%2fh%2fr1.webm", "..\\h\\r1.webm", "/h/r1.webm",
+                   "inner/r1.webm", "./inner/r1.webm", "x/../inner/r1.webm", "inner/deep/r2.webm", "inner//r1.webm", "inner\\r1.webm", "inner", "inner/"):
             req(st, "POST", "/recordings/g/", "rec", PW, "recordings", {"Content-Type": "application/x-www-form-urlencoded"},
                 "q=delete&filename=" + urllib.parse.quote(fn, safe=""))
         req(st, "POST", "/recordings/g/" + e + "/h/", "rec", PW, "recordings", {"Content-Type": "application/x-www-form-urlencoded"}, "q=delete&filename=r1.webm")
@@ -95,11 +97,6 @@ def server_behaviours():
     st.append(["files"])
     behs.append({"name": "bad-names-over-websocket", "fixture": fixture(), "steps": st, "roots": True})
     return behs, meta
-
-
-def lost_elsewhere(prev, cur):
-    """did a recording outside recordings/g/ disappear between two listings?"""
-    return 0
 
 
 def run(tier, replay=None):
@@ -153,9 +150,17 @@ def run(tier, replay=None):
             events += C.read_ndjson(t)
         prevrec = None
         for e in events:
+            if e["ev"] == "New":
+                prevrec = None
+            if e["ev"] in ("http", "files") and "roots" in e:
+                cur = set(e["roots"].pop("reclist", None) or [])
+                lost = (prevrec - cur) if prevrec is not None else set()
+                # the delete form of group g may remove files that lie directly in recordings/g/ and nothing else
+                e["lost_elsewhere"] = int(any(os.path.dirname(p) != "g" for p in lost))
+                prevrec = cur
             if e["ev"] == "http":
                 e["x"] = meta.get(e.get("name"), {"may": ""})
-                e["lost_elsewhere"] = 0
+                e.setdefault("lost_elsewhere", 0)
                 e.setdefault("leaks", [])
             if e["ev"] == "recv":
                 m = e.get("m") or {}
